@@ -127,6 +127,13 @@ Proof. exact cte_roundtrip. Qed.
 Theorem C17_cte_parse_exact : forall (s : bytes) (e : cte), cte_parse s = Some e -> s = cte_display e.
 Proof. exact cte_parse_inv. Qed.
 
+(* Content-Disposition: for EVERY file name (any octets - quotes, semicolons, CR LF, the text SP filename= DQUOTE itself) the
+   value stored by attachment(name) / inline_with_name(name) is parsed back by the typed reader to the same kind and
+   the same name (from which with_name rebuilds the equal header; its encoded form is C12_filename's subject) *)
+Theorem C17_content_disposition_readback : forall kind fname : bytes, kind = bs "inline" \/ kind = bs "attachment" ->
+  cd_parse (cd_raw kind fname) = Some (kind, Some fname).
+Proof. exact content_disposition_readback. Qed.
+
 Print Assumptions C17_mailbox_rt_noname.
 Print Assumptions C17_mailbox_rt_plain.
 Print Assumptions C17_mailbox_rt_quoted.
@@ -142,3 +149,4 @@ Print Assumptions C17_date_fields.
 Print Assumptions C17_mime_version_roundtrip.
 Print Assumptions C17_cte_roundtrip.
 Print Assumptions C17_cte_parse_exact.
+Print Assumptions C17_content_disposition_readback.
